@@ -103,7 +103,7 @@ type c14Witness struct {
 func init() {
 	core.Register(&core.Check{
 		ID:   "C14",
-		Rule: "all handler scripts of length 0..4 (quick; 0..6 in the thorough tier: 597,871 scripts) over 9 operations {set Content-Type, set required X-Req, WriteHeader(200|201|500|404), Write(valid JSON chunk), Write(schema-violating chunk), Flush} (7381 scripts) x request classes {valid, invalid parameter, unrouted path, undeclared method} x strict on/off x default/custom OnErr+OnLog callbacks, through Validator.Middleware over the gorillamux router (one Validator and wrapped handler per configuration serve all cases in sequence; handlers write through a scratch buffer they overwrite after each Write); plus the request gate of ValidationHandler (legacy router, file-loaded document). For every case the bare handler is run against the same kind of recorder (differential oracle), ValidateResponse on the bare result defines response validity, the handler invocation count is recorded. Distinct = (script, request class, strict, callbacks, wrapper); all are non-trivial (the empty script included).",
+		Rule: "all handler scripts of length 0..4 (quick; 0..6 in the thorough tier: 597,871 scripts) over 9 operations {set Content-Type, set required X-Req, WriteHeader(200|201|500|404), Write(valid JSON chunk), Write(schema-violating chunk), Flush} (7381 scripts) x request classes {valid, invalid parameter, unrouted path, undeclared method} x strict on/off x default/custom OnErr+OnLog callbacks, through Validator.Middleware over the gorillamux router (one Validator and wrapped handler per configuration serve all cases in sequence; handlers write through a scratch buffer they overwrite after each Write); plus the request gate of ValidationHandler (legacy router, file-loaded document). For every case the bare handler is run against the same kind of recorder (differential oracle), ValidateResponse on the bare result defines response validity, the handler invocation count is recorded. Distinct = (script, request class, strict, callbacks, wrapper); all are non-trivial (the empty script included). A second path /f/{name} is requested as /f/a%2Fb (routed) and then /f/a/b (declared nowhere) through the same Validator.",
 		Assumptions: []string{
 			"client transcript = what an httptest.ResponseRecorder observes (effective status = first WriteHeader else 200 at first Write or at the end; body = concatenated writes)",
 			"response headers set by the handler are not covered by the statement (only status code and body bytes)",
